@@ -180,6 +180,26 @@ pub fn run(ctx: &Ctx) -> i32 {
         let text = error_point_case(rng);
         check_text("error_points", i, &text, st);
     }));
+    // error floods: more than 100 recovered errors in one document (the last messages must be as complete as the first)
+    stats.merge(par_cases(ctx, "floods", ctx.tier.pick(150u64, 3_000), Duration::from_secs(ctx.tier.pick(40, 300)), |i, rng, st| {
+        let kind = rng.below(3);
+        let n = rng.range(101, 260);
+        let bad = rng.pick_str(&[";", "= =", "oops oops", "12", ")", "for", "@A (", "in in"]);
+        let mut s = String::from(match kind {
+            0 => "package p; interface I { ",
+            1 => "package p; parcelable P { ",
+            _ => "package p; enum E { ",
+        });
+        for k in 0..n {
+            match kind {
+                0 => s.push_str(&format!("void m{k}(); {bad} ; ")),
+                1 => s.push_str(&format!("int f{k}; {bad} ; ")),
+                _ => s.push_str(&format!("E{k}, {} , ", if bad.contains('(') || bad == ";" { "= =" } else { bad })),
+            }
+        }
+        s.push('}');
+        check_text("floods", i, &s, st);
+    }));
     let n2 = ctx.tier.pick(15_000u64, 300_000);
     stats.merge(par_cases(ctx, "mutations", n2, Duration::from_secs(ctx.tier.pick(40, 400)), |i, rng, st| {
         let (_, text) = syncases::mutation_case(rng);
